@@ -20,7 +20,12 @@ def run(ctx):
                 "never buffered; non-trivial = distinct run in which at least one oversize body was announced")
     ctx.assumptions = ["the schema bound B of a real constraint tree is computed by the harness from the constraint objects' public "
                        "attributes (maxLength, maxBytes); index tokens are bounded by RootUnslicer.maxIndexLength",
-                       "the tokenizer model is tied to banana.py by the C07 correspondence; here the per-chunk buffer/skip values are compared"]
+                       "the tokenizer model is tied to banana.py by the C07 correspondence; here the per-chunk buffer/skip values are compared",
+                       "C11_schema_bound_standard_unslicers carries the guard `the model did not abstain in this run`; with a finite sbound the "
+                       "abstentions left are value-level (what a reference resolves to, non-ASCII text, float / bool / frozenset members), never "
+                       "an unmodelled unslicer (C11_bounded_schema_never_leaves_the_model); the real receiver's high-water mark in such runs is "
+                       "covered by the direct oracles only. sbound is None for every schema with a ChoiceOf in a container's slot or a constraint "
+                       "whose opentype list is None or names copyable / decimal / set-vocab / add-vocab"]
     ok, log = ctx.coq_build(["props/C11.vo"])
     before = len(ctx.failures)
     model_ok = ok or ctx.coq_build(["lib/BananaRecv.vo"])[0]
@@ -232,6 +237,7 @@ def real_constraints(ctx, I):
     full_containers(ctx, I)
     member_counts(ctx, I)
     choice_open_sweep(ctx, I)
+    choice_admits_copyable(ctx, I)
     slot_alternation(ctx, I)
     schema_isolation(ctx, I)
     pb_index_tokens(ctx)
@@ -341,12 +347,14 @@ def schema_bounds(ctx):
                   ("unicode-unbounded", lambda: UnicodeConstraint(maxLength=None), None)]
         omax = lambda a, b: None if a is None or b is None else max(a, b)
         for n1, m1, b1 in leaves:
+            # a ChoiceOf has a finite bound only as the ROOT constraint: in a container's slot it admits OPEN copyable (opentypes = None)
+            ib1 = None if n1 == "choice" else b1
             items.append((n1, m1(), b1))
-            items.append(("ListOf(%s)" % n1, ListOf(m1(), maxLength=3), b1))
-            items.append(("SetOf(%s)" % n1, SetOf(m1(), maxLength=3), b1))
+            items.append(("ListOf(%s)" % n1, ListOf(m1(), maxLength=3), ib1))
+            items.append(("SetOf(%s)" % n1, SetOf(m1(), maxLength=3), ib1))
             for n2, m2, b2 in leaves[:3]:
-                items.append(("TupleOf(%s,%s)" % (n1, n2), TupleOf(m1(), m2()), omax(b1, b2)))
-                items.append(("DictOf(%s,ListOf(%s))" % (n2, n1), DictOf(m2(), ListOf(m1(), maxLength=2), maxKeys=2), omax(b1, b2)))
+                items.append(("TupleOf(%s,%s)" % (n1, n2), TupleOf(m1(), m2()), omax(ib1, b2)))
+                items.append(("DictOf(%s,ListOf(%s))" % (n2, n1), DictOf(m2(), ListOf(m1(), maxLength=2), maxKeys=2), omax(ib1, b2)))
     terms = [c07_std.to_coq(c) for _, c, _ in items]
     body = ("Local Open Scope Z_scope.\nEval vm_compute in map (fun c => match sbound c with Some b => b | None => -1 end) [\n%s].\n" % ";\n".join(terms))
     try:
@@ -365,6 +373,25 @@ def schema_bounds(ctx):
                          % (name, "none" if got == -1 else got, "none" if want is None else want), replay=dict(constraint=name, coq=got, harness=want), has_input=False)
     ctx.extra["schema_bound_cases"] = len(items)
     ctx.extra["schema_bound_disagreements"] = bad
+    # the witness of props/C11.v C11_taster_only_bound_refuted, on the LIVE constraint objects: the taster-only bound is finite, the
+    # list's slot admits OPEN copyable and the model leaves its fragment there (98 = abstains), sbound answers None
+    wit = c07_std.to_coq(ListOf(ChoiceOf(ByteStringConstraint(3), UnicodeConstraint(3))))
+    body = ("Local Open Scope Z_scope.\nDefinition W := %s.\n"
+            "Eval vm_compute in [match sbound_tasters W with Some b => b | None => -1 end; match sbound W with Some b => b | None => -1 end;\n"
+            "  match sapply_all 13 30 (sctx0 (Some W)) [(tok_OPEN, 0, []); (tok_STRING, 4, [108; 105; 115; 116])] with\n"
+            "  | UOk _ c _ => match std_do_open (map (uf_st sfr) (u_stack sfr c)) [str_copyable] with OExc k => k | OViol => -3 | _ => -1 end\n"
+            "  | UFatal _ _ => -2 end;\n"
+            "  match sbound_tasters rf_list, sbound_tasters W with Some a, Some b => a - b | _, _ => -1 end].\n" % wit)
+    try:
+        (w,) = ctx.coq_eval("C11_refuted_witness", body, requires=["Verif.lib.PyLite", "Verif.gen.BananaGen", "Verif.lib.Token", "Verif.lib.Recv", "Verif.lib.Unsl",
+                                                                     "Verif.lib.StdUnsl", "Verif.lib.StdUnslProofs"])
+        ctx.traces += 1
+        if list(w) != [18, -1, 98, 0]:
+            ctx.fail("correspondence/refuted-witness", "the witness of C11_taster_only_bound_refuted evaluated on the live constraint objects gives %r, "
+                     "expected [taster-only bound 18, sbound none (-1), doOpen(copyable) abstains (98), same as the Coq constant (0)]" % (list(w),),
+                     replay=dict(got=list(w), term=wit), has_input=False)
+    except common.CoqEvalError as e:
+        ctx.fail("correspondence-broken", "the refuted-witness evaluation failed: " + str(e)[-1200:], has_input=False)
 
 
 def slot_alternation(ctx, I):
@@ -641,6 +668,100 @@ def choice_open_sweep(ctx, I):
                         ctx.fail("oracle/unbounded-buffering/choice-slot", "under %s (%s) the receiver held %d bytes of a %s token announcing 2**60 bytes "
                                  "inside OPEN %s (no alternative admits more than %d bytes)" % (sname, where, hw, hex(ty), ot.decode(), B),
                                  replay=dict(slot=sname, where=where, opentype=ot.decode(), ty=ty, highwater=hw, bound=bound))
+
+
+def build_constraint(spec):
+    """corpus/C11 constraint spec -> live constraint object"""
+    from foolscap.constraint import ByteStringConstraint, IntegerConstraint
+    from foolscap.schema import ListOf, TupleOf, DictOf, SetOf, UnicodeConstraint, ChoiceOf
+    k = spec[0]
+    if k == "bytes":
+        return ByteStringConstraint(maxLength=spec[1])
+    if k == "unicode":
+        return UnicodeConstraint(maxLength=spec[1])
+    if k == "int":
+        return IntegerConstraint(maxBytes=spec[1])
+    if k == "choice":
+        return ChoiceOf(*[build_constraint(x) for x in spec[1:]])
+    if k == "list":
+        return ListOf(build_constraint(spec[1]), maxLength=3)
+    if k == "set":
+        return SetOf(build_constraint(spec[1]), maxLength=3)
+    if k == "tuple":
+        return TupleOf(*[build_constraint(x) for x in spec[1:]])
+    if k == "dict":
+        return DictOf(build_constraint(spec[1]), build_constraint(spec[2]), maxKeys=2)
+    raise ValueError(spec)
+
+
+def choice_admits_copyable(ctx, I):
+    """A slot governed by a ChoiceOf admits OPEN copyable (PolyConstraint inherits opentypes = None), and a RemoteCopyUnslicer applies
+    no constraint to its attribute-name tokens: after OPEN copyable + a REGISTERED class name, a STRING announcing far more than any
+    alternative admits must still not be buffered.  The class-name token itself is bounded by openerCheckToken (choice_open_sweep
+    stops there); this oracle goes one token further.  corpus/C11/choice_admits_copyable.json (the reviewer's input) first, then every
+    container slot kind x every registered Copyable name x STRING / attribute value positions.
+    lib/StdUnsl.sbound answers None for these schemas (props/C11.v C11_taster_only_bound_refuted)."""
+    import json, os
+    from foolscap.constraint import IConstraint
+    import foolscap.call          # registers twisted.python.failure.Failure, as in every process that creates a Tub
+    from foolscap import copyable
+    sig = "oracle/unbounded-buffering/choice-admits-copyable"
+
+    def drive(name, cobj, prefix, claim_ty, claim, chunk, nchunks, B):
+        p = I.RealBanana()
+        p.receiveStack[-1].constraint = IConstraint(cobj)
+        hw, esc = 0, None
+        try:
+            p.dataReceived(bytes(prefix))
+            p.dataReceived(tok(claim_ty, claim))
+            hw = len(p.buffer)
+            blob = b"x" * chunk
+            for _ in range(nchunks):
+                if p.connectionAbandoned:
+                    break
+                p.dataReceived(blob)
+                hw = max(hw, len(p.buffer))
+        except Exception as e:
+            esc = "%s: %s" % (type(e).__name__, e)
+        ctx.case(["choice-admits-copyable", name, list(prefix), claim_ty, claim, chunk, nchunks], nontrivial=True)
+        ctx.hist("choice_copyable", name.split(":")[0])
+        bound = 65 + max(B, p.rootUnslicer.maxIndexLength, 1000)
+        if esc:
+            ctx.fail("oracle/exception-escaped", "exception escaped dataReceived under %s: %s" % (name, esc), replay=dict(constraint=name, prefix=list(prefix)))
+        elif hw >= bound:
+            ctx.fail(sig, "under the size-bounded schema %s (no alternative admits a body over %d bytes) the receiver held %d bytes of a %s token "
+                     "announcing %d bytes that followed OPEN copyable + a registered class name inside a ChoiceOf slot (connection abandoned: %s; "
+                     "violations reported: %d)" % (name, B, hw, hex(claim_ty), claim, bool(p.connectionAbandoned),
+                                                   sum(1 for e in p.vlog if e[0] == "violation")),
+                     replay=dict(constraint=name, prefix=list(prefix), claim_type=claim_ty, claim=claim, chunk=chunk, chunks=nchunks, highwater=hw, bound=bound))
+        return hw
+
+    cdir = os.path.join(common.VERIF, "corpus", "C11")
+    if os.path.isdir(cdir):
+        for fn in sorted(os.listdir(cdir)):
+            if fn.endswith(".json"):
+                c = json.load(open(os.path.join(cdir, fn)))
+                if "prefix" in c:
+                    nch = c["chunks"] if ctx.tier != "quick" else min(c["chunks"], 30)
+                    drive("corpus:" + c["name"], build_constraint(c["constraint"]), c["prefix"], c["claim_type"], c["claim"], c["chunk"], nch, c["schema_bound"])
+    names = sorted(copyable.CopyableRegistry.keys())
+    ctx.extra["registered_copyables"] = len(names)
+    mkchoice = lambda: ["choice", ["bytes", 3], ["unicode", 3]]
+    slots = [("list-item", ["list", mkchoice()], tok(OPEN, 0) + S(b"list")),
+             ("set-member", ["set", mkchoice()], tok(OPEN, 0) + S(b"set")),
+             ("dict-value", ["dict", ["bytes", 5], mkchoice()], tok(OPEN, 0) + S(b"dict") + S(b"k")),
+             ("dict-key", ["dict", mkchoice(), ["bytes", 5]], tok(OPEN, 0) + S(b"dict")),
+             ("tuple-second", ["tuple", ["int", 4], mkchoice()], tok(OPEN, 0) + S(b"tuple") + enc_int(1)),
+             ("nested-choice", ["list", ["choice", mkchoice(), ["int", 4]]], tok(OPEN, 0) + S(b"list"))]
+    for sname, spec, pre in slots:
+        for cname in names[:3]:
+            cn = cname.encode() if isinstance(cname, str) else cname
+            for pos in ("attr-name", "attr-value"):
+                prefix = pre + tok(OPEN, 1) + S(b"copyable") + S(cn) + (S(b"a") if pos == "attr-value" else b"")
+                for ty in (STRING, LONGINT):
+                    if pos == "attr-name" and ty != STRING:
+                        continue
+                    drive("%s:%s:%s" % (sname, pos, cname), build_constraint(spec), prefix, ty, 2 ** 40, 4000, 3, 18)
 
 
 def member_counts(ctx, I):
